@@ -218,15 +218,18 @@ func (r *TrzszRelay) addHandshakeBuffer(buffer *trzszBuffer, data []byte, tunnel
 	defer r.bufferLock.Unlock()
 	status := r.relayStatus.Load()
 	if status != kRelayHandshaking || !tunnel && r.tunnelConnected.Load() {
+		vhook("relay.park.skip", int(status))
 		return status, false
 	}
 	buffer.addBuffer(data)
+	vhook("relay.park.done", int(status))
 	return status, true
 }
 
 func (r *TrzszRelay) flushHandshakeBuffer(confirm bool) {
 	r.bufferLock.Lock()
 	defer r.bufferLock.Unlock()
+	vhook("relay.flush.lock")
 
 	for {
 		buf := r.stdinBuffer.popBuffer()
@@ -256,11 +259,13 @@ func (r *TrzszRelay) flushHandshakeBuffer(confirm bool) {
 		}
 	}
 
+	vhook("relay.flush.store")
 	if confirm {
 		r.relayStatus.Store(kRelayTransferring)
 	} else {
 		r.resetToStandby(kRelayHandshaking)
 	}
+	vhook("relay.flush.done")
 }
 
 func decodeRelayBufferString(expectType string, line []byte) (string, error) {
@@ -418,6 +423,7 @@ func (r *TrzszRelay) handshake() {
 	}()
 
 	action, err := r.recvAction()
+	vhook("relay.hs.act")
 	if err != nil {
 		err = simpleTrzszError("Relay recv action error: %v", err)
 		return
@@ -441,6 +447,7 @@ func (r *TrzszRelay) handshake() {
 	}
 
 	config, err := r.recvConfig()
+	vhook("relay.hs.cfg")
 	if err != nil {
 		err = simpleTrzszError("Relay recv config error: %v", err)
 		return
@@ -464,6 +471,7 @@ func (r *TrzszRelay) resetToStandby(status int32) {
 	if !r.relayStatus.CompareAndSwap(status, kRelayStandBy) {
 		return
 	}
+	vhook("relay.reset", int(status))
 	if listener := r.tunnelListener.Load(); listener != nil {
 		(*listener).Close()
 		r.tunnelListener.Store(nil)
@@ -488,6 +496,7 @@ func (r *TrzszRelay) wrapInput() {
 			}
 
 			status := r.relayStatus.Load()
+			vhook("relay.in.load", int(status))
 			if status == kRelayHandshaking {
 				var ok bool
 				status, ok = r.addHandshakeBuffer(r.stdinBuffer, buf, false)
@@ -496,6 +505,7 @@ func (r *TrzszRelay) wrapInput() {
 				}
 			}
 
+			vhook("relay.in.fwd", int(status))
 			r.osStdinChan <- buf
 
 			if status == kRelayTransferring {
@@ -534,6 +544,7 @@ func (r *TrzszRelay) wrapOutput() {
 			}
 
 			status := r.relayStatus.Load()
+			vhook("relay.out.load", int(status))
 			if status == kRelayHandshaking {
 				var ok bool
 				status, ok = r.addHandshakeBuffer(r.stdoutBuffer, buf, false)
@@ -542,6 +553,7 @@ func (r *TrzszRelay) wrapOutput() {
 				}
 			}
 
+			vhook("relay.out.fwd", int(status))
 			if status == kRelayTransferring {
 				r.bypassTmuxChan <- buf
 
@@ -557,6 +569,7 @@ func (r *TrzszRelay) wrapOutput() {
 			buf, trigger = detector.detectTrzsz(buf, r.tunnelConnector.Load() != nil)
 			if trigger != nil {
 				r.relayStatus.Store(kRelayHandshaking) // store status before send to client
+				vhook("relay.out.trigger")
 				r.trigger = trigger
 				buf = r.listenForTunnel(buf)
 				go r.handshake()
